@@ -880,9 +880,24 @@ func c09WorkerStreams(r *Run, rng *Rng) {
 			have[k.Replay] = len(jobs)
 		}
 	}
+	violations := 0
 	for i := range jobs {
 		jobs[i].Vol = c09IsVolatile(jobs[i].Formula)
+		// the nesting discipline the theorem eval_no_panic assumes of the tokenizer, checked on the
+		// efp tokens of EVERY generated formula text (function product, mutations, deep nesting, witnesses)
+		ps := efp.ExcelParser()
+		if toks := ps.Parse(jobs[i].Formula); !c09NestedA(toks) {
+			// not a failure of the property: the formula is outside the theorem's hypothesis (efp emits an
+			// ARRAYROW start for every ';' and for a function literally named ARRAYROW, also outside an array
+			// constant); it is still evaluated under the no-panic oracle below. Counted and sampled.
+			violations++
+			if violations <= 3 {
+				r.Notes = append(r.Notes, fmt.Sprintf("outside nestedA: %q [%s]", c09Short(jobs[i].Formula), c09Short(c09Shape(toks))))
+			}
+		}
 	}
+	r.Stats["efp-discipline:formulas-checked"] += len(jobs)
+	r.Stats["efp-discipline:violations"] += violations
 	nw := runtime.NumCPU()
 	if nw > 16 {
 		nw = 16
